@@ -28,7 +28,11 @@ FRAGMENTS = ['{', '}', '[', ']', '$', '$$', '\\[', '\\]', '\\(', '\\)', '&', '\\
              '\\begin{tikzpicture}', '\\end{tikzpicture}', '\\begin{lstlisting}', '\\end{lstlisting}',
              '\\begin{yvmremoved}', '\\end{yvmremoved}', '\\begin{yvmequ}', '\\end{yvmequ}', '\\yvmswap',
              '\\yvmtwice{', '\\par', '\\LTadd{', '\\LTskip{', '\\LTalter{a}{', '\\begin {verbatim}',
-             '\\begin\n{verbatim}']
+             '\\begin\n{verbatim}',
+             # long repetitions: counters, label generators, rotating collections and nesting stacks must not run out
+             '\\begin{enumerate}\\begin{enumerate}' + '\\item x ' * 30, '\\begin{enumerate}' * 7 + '\\item a',
+             '\\begin{itemize}' + '\\item ' * 60, '$x$ ' * 15, '\\[a\\] ' * 10, '\\footnote{a}' * 12, '{' * 40 + 'x' + '}' * 40,
+             '\\begin{itemize}' * 12, '\\item[a] ' * 30, '\\foreignlanguage{german}{' * 8, '\\gls{x} ' * 8]
 
 
 def vocab():
